@@ -23,7 +23,7 @@ EXPLANATION = (
     "first qubit at `offset` and the second right after it; (R13.3) gates that take their dagger by a flag are exported as `<name>dg` and read back; (R13.4) inside loops "
     "over a batch of circuits the per-circuit state is read from the loop variable and counts are indexed by the loop index; (R13.5) the Born rule on scalars agrees with "
     "cqmap.Functor; (R13.6) order and totality of the dispatch for 20 box classes, init_and_discard, remove_ket1, the from_tk postlude; (R13.11) rename_units reads the old "
-    "post-selection before it writes. Not decided: equality of output distributions on a simulator; gates on three or more qubits in from_tk; Swap boxes.")
+    "post-selection before it writes. Not decided: equality of output distributions on a simulator; gates on three or more qubits in from_tk.")
 
 TK, CQM = "discopy.quantum.tk", "discopy.quantum.cqmap"
 _fresh = itertools.count()
@@ -98,6 +98,8 @@ def tk_model(ev):
     def post_process(d=None):
         if not isinstance(d, DLen):
             raise HelperFailure("post_process of a value that is not a circuit of known arity")
+        ev.pp_calls = getattr(ev, "pp_calls", [])
+        ev.pp_calls.append((ev.facts.eq(d.dom, ev.pp), "a process with %r inputs composed after a post-processing with %r outputs" % (d.dom, ev.pp)))
         ev.pp = ev.pp + d.cod - d.dom
         return Opaque()
     noop = Closure(lambda *a, **k: Opaque())
@@ -312,6 +314,12 @@ def check_arity(ctx):
                 bad.append("len(bits) changes by %r, the box changes the number of bit wires by %r" % (db, wb))
             ctx.ob("R13.2", "%s.to_tk:handler[%s]" % (TK, label), not bad, found="; ".join(bad) or "Δqubits = %r, Δbits = %r" % (wq, wb if cname != "Bra" else "(post-selected)"),
                    required="len(qubits) / len(bits) follow the wires of the diagram (invariant stated in to_tk)", mod=TK, node=cur, sig="arity:" + label)
+            calls = getattr(ev, "pp_calls", [])
+            if calls:
+                badc = [w for ok_, w in calls if not ok_]
+                ctx.ob("R13.8", "%s.to_tk:post-processing[%s]:composable" % (TK, label), not badc, found=badc[:2] or "%d composition(s), inputs = outputs of the post-processing so far" % len(calls),
+                       required="what is composed after the post-processing has exactly its outputs as inputs (identities to the left and to the right of the gate; AxiomError otherwise)", mod=TK,
+                       node=cur, sig="pp-composable:" + label)
             dpp = ev.pp - nb0
             ctx.ob("R13.8", "%s.to_tk:post-processing[%s]" % (TK, label), ev.facts.eq(dpp, wb), found="the codomain of the post-processing changes by %r bits, the box changes the number of bit wires by %r" % (dpp, wb),
                    required="the classical post-processing has one output per open bit wire (classical gates, swaps and discards are applied to it at wire positions)", mod=TK, node=cur, sig="pp-arity:" + label)
@@ -619,6 +627,12 @@ def check(ctx):
     check_dispatch(ctx)
     from . import c13b
     c13b.check(ctx)
+    ctx.rule("R13.12", "the offsets into the registers are counted with Ty.count (decided with C12 R12.6)")
+    try:
+        ctx.depend("R13.12", "C12", "to_tk locates a box in the registers with left.count(qubit) / left.count(bit): count must be the number of such wires", rules={"R12.6"}, constructs=["Ty.count"])
+    except AnalysisError:
+        if not any(not o.ok for o in ctx.obs):
+            raise
     ctx.floor("R13.7", 5)
     ctx.floor("R13.9", 6)
     ctx.floor("R13.10", 5)
